@@ -157,6 +157,9 @@ impl Worker {
         if w.env != 0 {
             bump(&mut rm.stats, "dim.environment_not_baseline", 1);
         }
+        if w.stdio != 0 {
+            bump(&mut rm.stats, "fault.process_stdout_or_stderr_broken", 1);
+        }
         if w.log_level > 3 {
             bump(&mut rm.stats, "dim.log_level_debug_or_trace", 1);
         }
